@@ -744,7 +744,7 @@ func work(ctx *runner.Ctx) {
 		if !ctx.Mine(i) {
 			continue
 		}
-		if i&0xff == 0 && ctx.Expired() {
+		if ctx.Expired() {
 			return
 		}
 		t0 := time.Now()
